@@ -283,7 +283,7 @@ _MERGED = ('(ite (= (select {ectx0} x) (select {new_context} x)) (select {ectx0}
            ' (ite {overwrite} (select {new_context} x)'
            ' (ite (= (select {ectx0} x) (- 1)) (select {new_context} x) (chainfn (select {ectx0} x) (select {new_context} x)))))')
 add(Contract('engine.YP.load_script_from_string', 'fn',
-             [('self', 'YP'), ('s', 'Str'), ('fn', 'Opt:Str:None'), ('overwrite', 'Opt:Bool:True')], ret='None',
+             [('self', 'YP'), ('s', 'Str'), ('fn', "Opt:Str:''"), ('overwrite', 'Opt:Bool:True')], ret='None',
              modifies=['ectx'],
              raises={'UserException': None},
              # a load that raises leaves the engine unchanged
